@@ -678,6 +678,7 @@ package util
 //@   assigns nothing
 //@   ensures c != nil
 //@ func (MPTSerializable).MarshalMsg returns (o, err)
+//@   opt devirt yes
 //@   assigns nothing
 //@ func (MPTSerializable).UnmarshalMsg returns (o, err)
 //@   assigns nothing
